@@ -273,6 +273,7 @@ static int recv_events(m_ctx_t *c, int timeout) {
                  */
                 if (p && p->flags & M_SRC_ONESHOT) {
                     if (p->type != M_SRC_TYPE_PS) {
+                        unpoll_src(p);
                         m_bst_remove(mod->srcs[p->type], p);
                     } else {
                         m_map_remove(mod->subscriptions, p->ps_src.topic);
